@@ -476,9 +476,16 @@ class With(suites_sql.K5With):
     n_quick, n_thorough = 150, 1000
 
 
+class K5TwinsC04(suites_sql.K5Twins):
+    """the same calls on twin inputs under WITH + CTE elimination (what a cache key must tell apart): correspondence of the
+    real result with the model's `semToSql` (no oracle of its own)"""
+    n_quick, n_thorough = 40, 300
+
+
 SUITES = [
     With(),
     with_oracle(SemOpt, oracle_c04, name="c04_semopt_oracle", every=6, shared=0.8),
     Stub(),
     Scope(),
+    K5TwinsC04(),
 ]
